@@ -4,5 +4,5 @@ CONSTANTS
   DevAvg = TRUE
   DevArr = FALSE
   DevStale = FALSE
-INVARIANTS LengthInv StepOK
+INVARIANTS LengthInv StepOKModKnown
 CHECK_DEADLOCK FALSE
